@@ -27,9 +27,8 @@ def build(shape: str, fault: dict | None, absent: str = "") -> dict:
             if absent == "noprep" and phase == "prepare" and not (fault and fault["path"] == p and fault["phase"] == phase):
                 nd[phase] = None
                 continue
-            # (in the failure programs the second callback of prepare() returns an awaitable object that is not a coroutine; the time-out
-            # programs keep plain callbacks - the extra suspension point would push 15 of them over the thorough tier's execution cap)
-            steps: list = [("td", f"td:{p}:{phase}"), ("gate", "g"), ("tdaw" if phase == "prepare" and fault else "td", f"td2:{p}:{phase}")]
+            # (the second callback of prepare() returns an awaitable object that is not a coroutine)
+            steps: list = [("td", f"td:{p}:{phase}"), ("gate", "g"), ("td" if phase == "start" else "tdaw", f"td2:{p}:{phase}")]
             if fault and fault["path"] == p and fault["phase"] == phase:
                 steps.insert(1 if fault["pos"] == "before" else 2,
                              ("bad-factory",) if fault["cls"] == "K" else ("nested-tree", True) if fault["cls"] == "N" else ("fail", fault["cls"]))
